@@ -391,8 +391,16 @@ func (w *World) monProposals(n *node, kind string, in *pb.Message, pre, post *ra
 	}
 	if newLead {
 		// exactly one empty entry per leadership
-		if len(appended) != 1 || appended[0].Type != pb.EntryNormal || len(appended[0].Data) != 0 {
-			w.violate("C20", []string{"C04"}, "node %d became leader of term %d and appended %d entries (want exactly one empty entry)", n.id, post.Term, len(appended))
+		bad := len(appended) == 0 || appended[0].Type != pb.EntryNormal || len(appended[0].Data) != 0
+		for _, e := range appended[min(1, len(appended)):] {
+			// the same call (Advance) may also acknowledge applied entries and
+			// thereby trigger an automatic leave-joint proposal
+			if !(isConfType(e.Type) && len(e.Data) == 0) {
+				bad = true
+			}
+		}
+		if bad {
+			w.violate("C20", []string{"C04"}, "node %d became leader of term %d and appended %d entries (want exactly one empty entry, plus at most automatic leave-joint entries)", n.id, post.Term, len(appended))
 		}
 	}
 	if red >= n.est {
@@ -411,7 +419,7 @@ func (w *World) monReads(n *node, kind string, in *pb.Message, pre, post *raft.V
 	m := w.mon
 	if kind == "readindex" && m.curRead != nil {
 		if _, ok := n.readRecv[string(m.curRead)]; !ok {
-			n.readRecv[string(m.curRead)] = w.step
+			n.readRecv[string(m.curRead)] = w.clock
 		}
 	}
 	type prod struct {
